@@ -39,6 +39,8 @@ enum MOp {
     TimerCancelled,
     /// start_query(), stop_query(), query_stopped() from the calling thread
     FlagCalls,
+    /// stop_query() while a query is live (the shared generator's Stop op)
+    StopButton,
     /// the knowledge base is changed between queries, through add_rules or directly through the
     /// public HashMap type: kind 0 add_rules on an existing predicate, 1 remove + insert of a
     /// predicate's clause vector, 2 the whole knowledge base replaced by a rebuilt one, 3 insert of a
@@ -289,6 +291,8 @@ fn make_scenario(seed: u64, part: &str, index: u64) -> (Scenario, Vec<MOp>) {
             Op::Idle { ms } => mops.push(MOp::Q(Op::Idle { ms: (*ms).min(3) })),
             Op::Assert { c } => mops.push(MOp::AssertExtra { c: *c }),
             Op::Reload => mops.push(MOp::KbMutate { kind: 2, q: 0 }),
+            // the stop button between two operations (the armed form needs the simulator's probe)
+            Op::Stop { .. } => mops.push(MOp::StopButton),
             Op::Drop { .. } => mops.push(MOp::Q(op.clone())),
         }
     }
@@ -347,7 +351,7 @@ fn parse_texts(seed: u64, scn: &Scenario, t: &mut Tally) {
     }
     // malformed input: every parser must reject (or accept) it without undefined behaviour —
     // hand-picked fragments, and generated texts cut off at a random character
-    for text in ["$X = $Y +", "A -", "B *", "7 /", "f(a, b", "[a, b", "[a | ", "\"unterminated", "f(a))", "", " ", "$", ":-", "a :- ", "a :- b,", "1.5.", "=", "f(", "f()", "not(", "a :- b ; ", "$X ==", "<", "[|]", "f(,)", "é", "f(é, 日本"] {
+    for text in ["$X = $Y +", "A -", "B *", "7 /", "f(a, b", "[a, b", "[a | ", "\"unterminated", "f(a))", "", " ", "$", ":-", "a :- ", "a :- b,", "1.5.", "=", "f(", "f()", "not(", "a :- b ; ", "$X ==", "<", "[|]", "f(,)", "é", "f(é, 日本", "a :- print(\"Hello), nl.", "print(\"x", "a :- b, \"", "\"", "a :- \"q\" = $X, print(\"r"] {
         if rng.chance(1, 3) {
             let _ = std::panic::catch_unwind(|| parse_term(text).is_ok());
             let _ = std::panic::catch_unwind(|| parse_subgoal(text).is_ok());
@@ -590,6 +594,10 @@ fn run_segment(scn: &Scenario, kb: &KnowledgeBase, mops: &[MOp], t: &mut Tally) 
                 stop_query();
                 let _ = query_stopped();
                 start_query();
+                let _ = query_stopped();
+            }
+            MOp::StopButton => {
+                stop_query();
                 let _ = query_stopped();
             }
             MOp::KbMutate { .. } => {}
